@@ -16,6 +16,9 @@
   (a4) `C11_import_faces_and_gluing`: for EVERY input, a returned map has the darts, β0 and β1 of the
        pre-sew map (one face per polygonal cell) and its 2-links only join corners whose sides run
        between the same two point indices in opposite directions (soundness of the gluing).
+  (a5) `C11_import_gluing_complete`: if no directed side (pair of point indices) is used twice, a returned
+       map glues EVERY pair of sides traversed in opposite directions between different point indices:
+       with (a4), `β2 d = e` exactly for such pairs.
   (a3) `C11_sew_keeps_equal_coordinates`: one `force_sew::<2>` whose two vertex merges average EQUAL
        coordinates leaves exactly these coordinates at the two new vertex ids (over `Rat`
        `(a + a) / 2 = a`; the float version is an assumption of the tie).
@@ -28,8 +31,11 @@
        between the same two vertices in opposite directions are sewn by export + import).
 
   NOT PROVED (validated by the oracles of tools/props/c11.py on the implementation, see SPEC["not_proved"]):
-  * totality and data placement of the whole import of a conforming list (no `unwrap` fires; after ALL
-    sews the corners keep their coordinates; β2 pairs exactly the opposite sides);
+  * totality of the import of a conforming list (no `unwrap` fires: the orientation test passes because
+    the two end points differ, the merges are defined) and the coordinates after ALL sews (the induction
+    over the sew loop needs "new vertex orbit = union of the two old ones, new id = the smaller id" for
+    every step, i.e. the cell calculus of Lemmas/CellCalc.lean, plus a forward construction of each
+    successful run); the one-step lemma is (a3);
   * (c) the composition theorem `importCells (exportPiece m) ≅ m`.
 -/
 import Honeycomb.Model.Vtk
@@ -681,6 +687,14 @@ example : (okGet (importCells exPts exCells 7)).β 2 3 = 4 ∧ (okGet (importCel
     (okGet (importCells exPts exCells 7)).att 0 1 = some (.pt 0 0 0) := by decide +kernel
 example : WF 3 (okGet (importCells exPts exCells 7)) :=
   C11_import_ok_WF _ _ _ _ (eq_ok_of_isOk (by decide +kernel))
+/-- the same cells as raw legacy data (`CELLS 4 17`, `CELL_TYPES 4`) -/
+example : WF 3 (okGet (importLegacy exPts 4 [3, 0, 1, 2, 2, 0, 1, 3, 0, 2, 3, 4, 1, 4, 5, 2] [5, 3, 5, 9])) :=
+  C11_importLegacy_ok_WF _ _ _ _ _ _ (eq_ok_of_isOk (by decide +kernel))
+/-- a wrong `num_cells` is an error, a wrong component count a panic, an unsupported type an error -/
+example : (match importLegacy exPts 3 [3, 0, 1, 2] [5] with | .err e => e = errBadVtk 1 | _ => False) ∧
+    (match importLegacy exPts 2 [3, 0, 1, 2] [5, 5] with | .panic => True | _ => False) ∧
+    (match importLegacy exPts 1 [4, 0, 1, 2, 3] [10] with | .err e => e = errUnsupported 7 | _ => False) :=
+  ⟨rfl, trivial, rfl⟩
 example : faceLists exCells = [[0, 1, 2], [0, 2, 3], [1, 4, 5, 2]] := by decide
 
 /-! ## (a4) the sew phase only adds 2-links, between darts filed under opposite keys -/
@@ -905,6 +919,413 @@ example : SideOf 1 (faceLists exCells) 3 (2, 0) ∧ SideOf 1 (faceLists exCells)
   constructor
   · exact Or.inl ⟨2, by decide, rfl, rfl⟩
   · exact Or.inr (Or.inl ⟨0, by decide, rfl, rfl⟩)
+
+
+/-! ## (a5) completeness of the gluing when no directed side is repeated -/
+
+/-- the buffer is a map: one entry per key (always true of a `BTreeMap`) -/
+def UniqueKeys (buf : Buf) : Prop := ∀ a, a ∈ buf → ∀ b, b ∈ buf → a.1 = b.1 → a = b
+
+theorem uniqueKeys_insert {buf : Buf} (h : UniqueKeys buf) (k : Nat × Nat) (d : Nat) :
+    UniqueKeys (bufInsert buf k d) := by
+  intro a ha b hb hab
+  rcases mem_bufInsert ha with ⟨h1, n1⟩ | rfl
+  · rcases mem_bufInsert hb with ⟨h2, n2⟩ | rfl
+    · exact h a h1 b h2 hab
+    · exact absurd hab n1
+  · rcases mem_bufInsert hb with ⟨h2, n2⟩ | rfl
+    · exact absurd hab.symm n2
+    · rfl
+
+theorem uniqueKeys_erase {buf : Buf} (h : UniqueKeys buf) (k : Nat × Nat) : UniqueKeys (bufErase buf k) :=
+  fun a ha b hb hab => h a (mem_bufErase ha).1 b (mem_bufErase hb).1 hab
+
+theorem mem_bufErase_of {b : Buf} {k : Nat × Nat} {e : (Nat × Nat) × Nat} (h : e ∈ b) (hk : e.1 ≠ k) :
+    e ∈ bufErase b k := by
+  unfold bufErase
+  rw [List.mem_filter]
+  exact ⟨h, by simpa using hk⟩
+
+theorem bufFind_none {b : Buf} {k : Nat × Nat} (h : bufFind b k = none) : ∀ x, x ∈ b → x.1 ≠ k := by
+  unfold bufFind at h
+  match hf : b.find? (fun e => e.1 = k) with
+  | some e => rw [hf] at h; simp at h
+  | none =>
+      intro x hx hk
+      have := List.find?_eq_none.1 hf x hx
+      simp [hk] at this
+
+theorem corner_unique {fp : List Val} {vids : List Nat} {d0 i : Nat} {st st' : Map Val × Buf}
+    (h : UniqueKeys st.2) (hc : corner fp vids d0 i st = .ok st') : UniqueKeys st'.2 := by
+  unfold corner at hc
+  simp only at hc
+  split at hc
+  · simp at hc
+  · split at hc
+    · split at hc
+      · simp only [Out.ok.injEq] at hc
+        subst hc
+        exact uniqueKeys_insert h _ _
+      · simp at hc
+    · simp at hc
+
+theorem cellStep_unique {fp : List Val} {c : VCell} {st st' : Map Val × Buf}
+    (h : UniqueKeys st.2) (hc : cellStep fp c st = .ok st') : UniqueKeys st'.2 := by
+  rcases cellStep_cases hc with ⟨_, rfl⟩ | ⟨_, hb⟩
+  · exact h
+  · unfold buildFace at hb
+    simp only at hb
+    exact foldOut_inv (f := corner fp c.vids (st.1.addFreeDarts c.vids.length).1)
+      (Q := fun s : Map Val × Buf => UniqueKeys s.2)
+      (fun x s s' hq hx => corner_unique hq hx) _ ((st.1.addFreeDarts c.vids.length).2, st.2) st' h hb
+
+theorem buildCells_unique {pts : List Val} {cells : List VCell} {st : Map Val × Buf}
+    (h : buildCells pts cells = .ok st) : UniqueKeys st.2 := by
+  unfold buildCells at h
+  exact foldOut_inv (Q := fun s : Map Val × Buf => UniqueKeys s.2)
+    (fun x s s' hq hx => cellStep_unique hq hx) cells _ st (by intro a ha; simp at ha) h
+
+/-- the 2-link performed by a successful sew -/
+theorem sew2_links {m m' : Map Val} {l r : Nat} {u : Unit} (hne : l ≠ r)
+    (h : atomically (twoSew2 cfg0 m.n l r) m = (.ok u, m')) :
+    m'.β 2 l = r ∧ m'.β 2 r = l ∧ ∀ d, d ≠ l → d ≠ r → m'.β 2 d = m.β 2 d := by
+  have hrun := atomically_ok h
+  obtain ⟨m1, h1, st⟩ := C04.C04_twoSew2_topology cfg0 m.n l r m m' u hrun
+  obtain ⟨o1, o2, _, _, rfl⟩ := iLinkCore_ok h1
+  have hβ : ∀ j d, m'.β j d = ((m.setβ 2 l r).setβ 2 r l).β j d := fun j d => st.β j d
+  refine ⟨?_, ?_, ?_⟩
+  · rw [hβ, Map.β_setβ, Map.β_setβ]
+    simp only [Map.okβ_setβ, o1, o2, and_true, true_and]
+    rw [if_neg (fun e => hne e.symm)]; simp
+  · rw [hβ, Map.β_setβ]
+    simp only [Map.okβ_setβ, o2, and_true, true_and]; simp
+  · intro d h1 h2
+    rw [hβ, Map.β_setβ, Map.β_setβ]
+    simp only [Map.okβ_setβ, o1, o2, and_true, true_and]
+    rw [if_neg (fun e => h2 e.symm), if_neg (fun e => h1 e.symm)]
+
+theorem bufMin_none {b : Buf} (h : bufMin b = none) : b = [] := by
+  cases b with
+  | nil => rfl
+  | cons x xs =>
+      exfalso
+      unfold bufMin at h
+      split at h
+      · simp at h
+      · split at h <;> simp at h
+
+theorem swap_ne {k : Nat × Nat} (h : k.1 ≠ k.2) : (k.2, k.1) ≠ k := by
+  intro e
+  have := congrArg Prod.fst e
+  simp at this
+  exact h this.symm
+
+/-- the sew phase glues EVERY pair of entries filed under opposite keys -/
+theorem sewLoop_complete : ∀ (fuel : Nat) (buf : Buf) (m m' : Map Val), Inv m.n (m, buf) →
+    UniqueKeys buf → (∀ e, e ∈ buf → m.β 2 e.2 = 0) → sewLoop fuel buf m = .ok m' →
+    ∀ e1, e1 ∈ buf → ∀ e2, e2 ∈ buf → e2.1 = (e1.1.2, e1.1.1) → e1.1.1 ≠ e1.1.2 →
+      m'.β 2 e1.2 = e2.2 := by
+  intro fuel
+  induction fuel with
+  | zero => intro buf m m' _ _ _ h; simp [sewLoop] at h
+  | succ f ih =>
+      intro buf m m' hinv huq hfree hs e1 he1 e2 he2 hk hab
+      unfold sewLoop at hs
+      split at hs
+      · rename_i hnone
+        -- empty buffer
+        rw [bufMin_none hnone] at he1
+        simp at he1
+      · rename_i e he
+        have hem := bufMin_mem he
+        simp only at hs
+        have hk' : e1.1 = (e2.1.2, e2.1.1) := by rw [hk]
+        have hab2 : e2.1.1 ≠ e2.1.2 := by rw [hk]; exact fun h => hab h.symm
+        split at hs
+        · rename_i hnone
+          have hno := bufFind_none hnone
+          have invr : Inv m.n (m, bufErase buf e.1) :=
+            { wf := hinv.wf, used := hinv.used, le := hinv.le
+              pos := fun x hx => hinv.pos x (mem_bufErase hx).1
+              lt := fun x hx => hinv.lt x (mem_bufErase hx).1
+              inj := fun a ha b hb => hinv.inj a (mem_bufErase ha).1 b (mem_bufErase hb).1 }
+          by_cases c1 : e1.1 = e.1
+          · exfalso
+            have : e2 ∈ bufErase buf e.1 := mem_bufErase_of he2 (by
+              rw [hk, ← c1]; exact swap_ne hab)
+            exact hno e2 this (by rw [hk, c1])
+          · by_cases c2 : e2.1 = e.1
+            · exfalso
+              have : e1 ∈ bufErase buf e.1 := mem_bufErase_of he1 c1
+              exact hno e1 this (by rw [hk', c2])
+            · exact ih _ m m' invr (uniqueKeys_erase huq _)
+                (fun x hx => hfree x (mem_bufErase hx).1) hs e1 (mem_bufErase_of he1 c1)
+                e2 (mem_bufErase_of he2 c2) hk hab
+        · rename_i d1 hf
+          obtain ⟨x1, hx1, hxk, hxd⟩ := bufFind_mem hf
+          obtain ⟨hx1b, hx1ne⟩ := mem_bufErase hx1
+          have hne : e.2 ≠ d1 := by
+            intro heq
+            exact hx1ne (hinv.inj x1 hx1b e hem (by rw [hxd, heq]))
+          have hl : C01.InUse m e.2 := ⟨hinv.pos e hem, hinv.lt e hem, hinv.used _⟩
+          have hr : C01.InUse m d1 := by
+            rw [← hxd]; exact ⟨hinv.pos x1 hx1b, hinv.lt x1 hx1b, hinv.used _⟩
+          split at hs
+          · rename_i u m2 hsew
+            obtain ⟨wf2, sd2⟩ := sew2_step hinv.wf hl hr hne hsew
+            obtain ⟨l1, l2, l3⟩ := sew2_links hne hsew
+            -- the remaining entries
+            have sub : ∀ x, x ∈ bufErase (bufErase buf e.1) (e.1.2, e.1.1) → x ∈ buf ∧ x.1 ≠ e.1 ∧
+                x.1 ≠ (e.1.2, e.1.1) := fun x hx =>
+              ⟨(mem_bufErase (mem_bufErase hx).1).1, (mem_bufErase (mem_bufErase hx).1).2, (mem_bufErase hx).2⟩
+            have dartne : ∀ x, x ∈ bufErase (bufErase buf e.1) (e.1.2, e.1.1) → x.2 ≠ e.2 ∧ x.2 ≠ d1 := by
+              intro x hx
+              obtain ⟨xb, xk1, xk2⟩ := sub x hx
+              refine ⟨fun hh => xk1 (hinv.inj x xb e hem hh), fun hh => xk2 ?_⟩
+              rw [← hxk]
+              exact hinv.inj x xb x1 hx1b (by rw [hh, hxd])
+            have invr : Inv m2.n (m2, bufErase (bufErase buf e.1) (e.1.2, e.1.1)) :=
+              { wf := wf2, used := fun d => by rw [sd2.unused]; exact hinv.used d, le := Nat.le_refl _
+                pos := fun x hx => hinv.pos x (sub x hx).1
+                lt := fun x hx => by rw [sd2.1]; exact hinv.lt x (sub x hx).1
+                inj := fun a ha b hb => hinv.inj a (sub a ha).1 b (sub b hb).1 }
+            have free2 : ∀ x, x ∈ bufErase (bufErase buf e.1) (e.1.2, e.1.1) → m2.β 2 x.2 = 0 := by
+              intro x hx
+              rw [l3 _ (dartne x hx).1 (dartne x hx).2]
+              exact hfree x (sub x hx).1
+            have later := sewLoop_sewn _ _ m2 m' hs
+            -- darts of this round are not touched any more
+            have keep : ∀ d, (d = e.2 ∨ d = d1) → m'.β 2 d = m2.β 2 d := by
+              intro d hd
+              by_cases c : m'.β 2 d = m2.β 2 d
+              · exact c
+              · exfalso
+                obtain ⟨a, b, h1, _⟩ := later.b2 d c
+                have := dartne _ h1
+                rcases hd with rfl | rfl
+                · exact this.1 rfl
+                · exact this.2 rfl
+            by_cases c1 : e1.1 = e.1
+            · have E1 : e1 = e := huq e1 he1 e hem c1
+              have E2 : e2 = x1 := huq e2 he2 x1 hx1b (by rw [hk, c1, hxk])
+              rw [E1, E2, hxd, keep _ (Or.inl rfl), l1]
+            · by_cases c2 : e2.1 = e.1
+              · have E2 : e2 = e := huq e2 he2 e hem c2
+                have E1 : e1 = x1 := huq e1 he1 x1 hx1b (by rw [hk', c2, hxk])
+                rw [E1, E2, hxd, keep _ (Or.inr rfl), l2]
+              · have c3 : e1.1 ≠ (e.1.2, e.1.1) := by
+                  intro hh; apply c2; rw [hk, hh]
+                have c4 : e2.1 ≠ (e.1.2, e.1.1) := by
+                  intro hh; apply c1; rw [hk', hh]
+                exact ih _ m2 m' invr (uniqueKeys_erase (uniqueKeys_erase huq _) _) free2 hs
+                  e1 (mem_bufErase_of (mem_bufErase_of he1 c1) c3)
+                  e2 (mem_bufErase_of (mem_bufErase_of he2 c2) c4) hk hab
+          · simp at hs
+
+
+/-- the directed sides of a cell, as pairs of point indices -/
+def sidesOf (v : List Nat) : List (Nat × Nat) :=
+  (List.range v.length).map (fun i => (v.getD i 0, v.getD ((i + 1) % v.length) 0))
+/-- all directed sides of a list of cells -/
+def allSides (vs : List (List Nat)) : List (Nat × Nat) := (vs.map sidesOf).flatten
+
+theorem mem_sidesOf {v : List Nat} {k : Nat × Nat} :
+    k ∈ sidesOf v ↔ ∃ i, i < v.length ∧ k = (v.getD i 0, v.getD ((i + 1) % v.length) 0) := by
+  unfold sidesOf
+  rw [List.mem_map]
+  constructor
+  · rintro ⟨i, hi, rfl⟩; exact ⟨i, List.mem_range.1 hi, rfl⟩
+  · rintro ⟨i, hi, rfl⟩; exact ⟨i, List.mem_range.2 hi, rfl⟩
+
+theorem sidesOf_inj {v : List Nat} (h : (sidesOf v).Nodup) {i j : Nat} (hi : i < v.length) (hj : j < v.length)
+    (e : (v.getD i 0, v.getD ((i + 1) % v.length) 0) = (v.getD j 0, v.getD ((j + 1) % v.length) 0)) :
+    i = j := by
+  have li : i < (sidesOf v).length := by simp [sidesOf]; exact hi
+  have lj : j < (sidesOf v).length := by simp [sidesOf]; exact hj
+  have gi : (sidesOf v)[i] = (v.getD i 0, v.getD ((i + 1) % v.length) 0) := by simp [sidesOf]
+  have gj : (sidesOf v)[j] = (v.getD j 0, v.getD ((j + 1) % v.length) 0) := by simp [sidesOf]
+  exact (List.getElem_inj (h₀ := li) (h₁ := lj) h).1 (by rw [gi, gj, e])
+
+theorem mem_bufInsert_self (b : Buf) (k : Nat × Nat) (d : Nat) : (k, d) ∈ bufInsert b k d := by
+  unfold bufInsert; simp
+
+theorem mem_bufInsert_of {b : Buf} {k : Nat × Nat} {d : Nat} {e : (Nat × Nat) × Nat} (h : e ∈ b)
+    (hk : e.1 ≠ k) : e ∈ bufInsert b k d := by
+  unfold bufInsert
+  rw [List.mem_append]
+  left
+  rw [List.mem_filter]
+  exact ⟨h, by simpa using hk⟩
+
+theorem corner_buf {fp : List Val} {vids : List Nat} {d0 i : Nat} {st st' : Map Val × Buf}
+    (hc : corner fp vids d0 i st = .ok st') :
+    st'.2 = bufInsert st.2 (vids.getD i 0, vids.getD ((i + 1) % vids.length) 0) (d0 + i) := by
+  unfold corner at hc
+  simp only at hc
+  split at hc
+  · simp at hc
+  · split at hc
+    · split at hc
+      · simp only [Out.ok.injEq] at hc
+        subst hc
+        rfl
+      · simp at hc
+    · simp at hc
+
+/-- the corners of one cell all enter the buffer, and displace nothing, when the cell's sides are
+    pairwise distinct and new -/
+theorem corners_complete {fp : List Val} {vids : List Nat} {d0 : Nat} {buf0 : Buf}
+    (hnd : (sidesOf vids).Nodup) (hnew : ∀ e, e ∈ buf0 → e.1 ∉ sidesOf vids) :
+    ∀ (len s : Nat) (st st' : Map Val × Buf), s + len = vids.length →
+      ((∀ e, e ∈ buf0 → e ∈ st.2) ∧
+       (∀ i, i < s → ((vids.getD i 0, vids.getD ((i + 1) % vids.length) 0), d0 + i) ∈ st.2) ∧
+       (∀ e, e ∈ st.2 → e ∈ buf0 ∨ ∃ i, i < s ∧
+          e = ((vids.getD i 0, vids.getD ((i + 1) % vids.length) 0), d0 + i))) →
+      foldOut (corner fp vids d0) (List.range' s len) st = .ok st' →
+      (∀ e, e ∈ buf0 → e ∈ st'.2) ∧
+      (∀ i, i < vids.length → ((vids.getD i 0, vids.getD ((i + 1) % vids.length) 0), d0 + i) ∈ st'.2) := by
+  intro len
+  induction len with
+  | zero =>
+      intro s st st' hs h hf
+      simp [foldOut] at hf
+      subst hf
+      have : s = vids.length := by omega
+      subst this
+      exact ⟨h.1, h.2.1⟩
+  | succ len ih =>
+      intro s st st' hs h hf
+      rw [List.range'_succ] at hf
+      unfold foldOut at hf
+      match hx : corner fp vids d0 s st with
+      | .ok s1 =>
+          rw [hx] at hf
+          refine ih (s + 1) s1 st' (by omega) ?_ hf
+          have hbuf := corner_buf hx
+          have hslt : s < vids.length := by omega
+          -- no entry of the buffer has the key of corner `s`
+          have fresh : ∀ e, e ∈ st.2 → e.1 ≠ (vids.getD s 0, vids.getD ((s + 1) % vids.length) 0) := by
+            intro e he hk
+            rcases h.2.2 e he with h0 | ⟨i, hi, rfl⟩
+            · exact hnew e h0 (mem_sidesOf.2 ⟨s, hslt, hk⟩)
+            · have := sidesOf_inj hnd (by omega) hslt hk
+              omega
+          refine ⟨?_, ?_, ?_⟩
+          · intro e he
+            rw [hbuf]
+            exact mem_bufInsert_of (h.1 e he) (fresh e (h.1 e he))
+          · intro i hi
+            rw [hbuf]
+            by_cases c : i = s
+            · subst c; exact mem_bufInsert_self _ _ _
+            · have hm := h.2.1 i (by omega)
+              exact mem_bufInsert_of hm (fresh _ hm)
+          · intro e he
+            rw [hbuf] at he
+            rcases mem_bufInsert he with ⟨h1, _⟩ | rfl
+            · rcases h.2.2 e h1 with h0 | ⟨i, hi, rfl⟩
+              · exact Or.inl h0
+              · exact Or.inr ⟨i, by omega, rfl⟩
+            · exact Or.inr ⟨s, by omega, rfl⟩
+      | .err e => rw [hx] at hf; simp at hf
+      | .retry => rw [hx] at hf; simp at hf
+      | .panic => rw [hx] at hf; simp at hf
+
+theorem buildFace_complete {fp : List Val} {vids : List Nat} {st st' : Map Val × Buf}
+    (hnd : (sidesOf vids).Nodup) (hnew : ∀ e, e ∈ st.2 → e.1 ∉ sidesOf vids)
+    (hb : buildFace fp vids st = .ok st') :
+    (∀ e, e ∈ st.2 → e ∈ st'.2) ∧
+    (∀ i, i < vids.length → ((vids.getD i 0, vids.getD ((i + 1) % vids.length) 0), st.1.n + i) ∈ st'.2) := by
+  unfold buildFace at hb
+  simp only at hb
+  rw [List.range_eq_range'] at hb
+  exact corners_complete (fp := fp) (vids := vids) (d0 := st.1.n) (buf0 := st.2) hnd hnew vids.length 0
+    ((st.1.addFreeDarts vids.length).2, st.2) st' (by omega)
+    ⟨fun e he => he, fun i hi => absurd hi (by omega), fun e he => Or.inl he⟩ hb
+
+theorem allSides_cons (v : List Nat) (vs : List (List Nat)) : allSides (v :: vs) = sidesOf v ++ allSides vs := by
+  simp [allSides]
+
+theorem cells_complete {fp : List Val} :
+    ∀ (cells : List VCell) (st st' : Map Val × Buf), Inv st.1.n st →
+      (allSides (faceLists cells)).Nodup → (∀ e, e ∈ st.2 → e.1 ∉ allSides (faceLists cells)) →
+      foldOut (cellStep fp) cells st = .ok st' →
+      (∀ e, e ∈ st.2 → e ∈ st'.2) ∧
+      (∀ d k, SideOf st.1.n (faceLists cells) d k → (k, d) ∈ st'.2) := by
+  intro cells
+  induction cells with
+  | nil =>
+      intro st st' _ _ _ hf
+      simp [foldOut] at hf
+      subst hf
+      exact ⟨fun e he => he, fun d k h => by simp [faceLists, SideOf] at h⟩
+  | cons c cs ih =>
+      intro st st' hinv hnd hnew hf
+      unfold foldOut at hf
+      match hx : cellStep fp c st with
+      | .ok s1 =>
+          rw [hx] at hf
+          have hinv1 := cellStep_inv hinv hx
+          rcases cellStep_cases hx with ⟨hty, rfl⟩ | ⟨hty, hb⟩
+          · have : faceLists (c :: cs) = faceLists cs := by
+              simp [faceLists, List.filterMap_cons, hty]
+            rw [this] at hnd hnew ⊢
+            exact ih s1 st' hinv hnd hnew hf
+          · have hfl : faceLists (c :: cs) = c.vids :: faceLists cs := by
+              simp [faceLists, List.filterMap_cons, hty]
+            rw [hfl] at hnd hnew ⊢
+            rw [allSides_cons] at hnd hnew
+            obtain ⟨nd1, nd2, ndx⟩ := List.nodup_append.1 hnd
+            obtain ⟨n1, _, _, _⟩ := buildFace_spec hinv.wf hb
+            have hnew1 : ∀ e, e ∈ st.2 → e.1 ∉ sidesOf c.vids := fun e he hm =>
+              hnew e he (List.mem_append_left _ hm)
+            obtain ⟨keep1, all1⟩ := buildFace_complete nd1 hnew1 hb
+            have hnew2 : ∀ e, e ∈ s1.2 → e.1 ∉ allSides (faceLists cs) := by
+              intro e he hm
+              rcases buildFace_keys hb e he with h0 | ⟨i, hi, _, hk⟩
+              · exact hnew e h0 (List.mem_append_right _ hm)
+              · exact ndx _ (mem_sidesOf.2 ⟨i, hi, hk⟩) _ hm rfl
+            obtain ⟨keep2, all2⟩ := ih s1 st' hinv1 nd2 hnew2 hf
+            refine ⟨fun e he => keep2 e (keep1 e he), ?_⟩
+            intro d k hs
+            rcases hs with ⟨i, hi, rfl, rfl⟩ | hs
+            · exact keep2 _ (all1 i hi)
+            · rw [← n1] at hs
+              exact all2 d k hs
+      | .err e => rw [hx] at hf; simp at hf
+      | .retry => rw [hx] at hf; simp at hf
+      | .panic => rw [hx] at hf; simp at hf
+
+/-- **C11 (a5)**: if no directed side (pair of point indices) is used twice by the polygonal cells —
+    half of the property's notion of a conforming list — then a map returned by the import glues EVERY
+    pair of sides traversed in opposite directions between two different point indices: with
+    `C11_import_faces_and_gluing`, `β2 d = e` EXACTLY when `d` and `e` are such a pair.  (That the import
+    of a conforming list does return a map is not proved: it needs the coordinates, see the header.) -/
+theorem C11_import_gluing_complete (pts : List Val) (cells : List VCell) (mask : Nat) (m : Map Val)
+    (h : importCells pts cells mask = .ok m) (hnd : (allSides (faceLists cells)).Nodup)
+    {d e a b : Nat} (hd : SideOf 1 (faceLists cells) d (a, b)) (he : SideOf 1 (faceLists cells) e (b, a))
+    (hab : a ≠ b) : m.β 2 d = e := by
+  unfold importCells at h
+  match hb : buildCells pts cells with
+  | .ok (m0, buf) =>
+      rw [hb] at h
+      simp only at h
+      obtain ⟨_, hb2, _⟩ := C11_buildCells_structure pts cells m0 buf hb
+      have hfold : foldOut (cellStep (pts.map flat)) cells (emptyMap, []) = .ok (m0, buf) := by
+        unfold buildCells at hb; exact hb
+      obtain ⟨_, hall⟩ := cells_complete cells (emptyMap, []) (m0, buf) inv_empty hnd
+        (by intro x hx; simp at hx) hfold
+      exact sewLoop_complete _ buf m0 m (buildCells_inv hb) (buildCells_unique hb)
+        (fun x _ => hb2 x.2) h ((a, b), d) (hall d (a, b) hd) ((b, a), e) (hall e (b, a) he) rfl hab
+  | .err e => rw [hb] at h; simp at h
+  | .retry => rw [hb] at h; simp at h
+  | .panic => rw [hb] at h; simp at h
+
+/-- non-vacuity: the sides of `exCells` are pairwise distinct; darts 3 and 4 are glued -/
+example : (allSides (faceLists exCells)).Nodup := by decide
+example : (okGet (importCells exPts exCells 0)).β 2 3 = 4 :=
+  C11_import_gluing_complete exPts exCells 0 _ (eq_ok_of_isOk (by decide +kernel)) (by decide)
+    (a := 2) (b := 0) (Or.inl ⟨2, by decide, rfl, rfl⟩) (Or.inr (Or.inl ⟨0, by decide, rfl, rfl⟩)) (by decide)
 
 
 /-! ## (a3) a 2-sew that merges equal coordinates keeps them -/
@@ -1287,6 +1708,7 @@ example : walk1 exMap 7 = some [7, 8, 9, 10] ∧ ∀ x, x ∈ [7, 8, 9, 10] → 
 example : exMap.unused 7 = false ∧ pointOf exMap (iterVertices2 exMap) 7 = some 1 := by decide +kernel
 /-- the round trip of this mesh gives the same map up to the numbering of the darts -/
 example : roundTrip exMap = .ok (okGet (roundTrip exMap)) := eq_ok_of_isOk (by decide +kernel)
+example : WF 3 (okGet (roundTrip exMap)) := C11_roundTrip_ok_WF _ _ (eq_ok_of_isOk (by decide +kernel))
 
 /-! ## (d) the known finding C11-crack: free opposite sides are sewn by the import -/
 
